@@ -73,6 +73,11 @@ pub struct Prog {
     /// after the threads have joined: disarm the fault, compact everything, wait for the
     /// background work to go idle and require the directory to hold exactly the needed files
     pub final_directory: bool,
+    /// the fault fires only this many times (None = sticky)
+    pub fault_budget: Option<u32>,
+    /// C08 under concurrency: judge the history as linearizable with failed calls optional, and
+    /// after the run disarm the fault, reopen and require every acknowledged write to be there
+    pub judge_under_fault: bool,
 }
 
 pub fn val(id: u16, size: u32) -> Vec<u8> {
@@ -101,6 +106,8 @@ impl Prog {
             "sticky_fault_after_setup": self.fault.map(|(c, s)| format!("classes {:#x} on *{}", c, s)),
             "fault_only_hits_thread": self.fault_thread.map(|t| t + 1),
             "directory_checked_after_final_compaction": self.final_directory,
+            "fault_fires_at_most": self.fault_budget,
+            "judged_under_fault_linearizable_and_durable_after_reopen": self.judge_under_fault,
         })
     }
 }
@@ -307,6 +314,7 @@ fn prog_body(prog: &Prog, log: &Arc<Mutex<Vec<Event>>>, stale: &Arc<AtomicU64>) 
     fs.set_fs_switch(prog.fs_switch);
     if let Some((classes, suffix)) = prog.fault {
         fs.state().fail_by_suffix = Some((classes, suffix.to_string()));
+        fs.state().fail_by_suffix_budget = prog.fault_budget;
     }
     let mut handles = vec![];
     for (ti, ops) in prog.threads.iter().enumerate() {
@@ -361,6 +369,19 @@ fn prog_body(prog: &Prog, log: &Arc<Mutex<Vec<Event>>>, stale: &Arc<AtomicU64>) 
         Ok(db) => drop(db),
         Err(_) => panic!("harness: database handle still shared at the end"),
     }
+    if prog.judge_under_fault {
+        fs.state().fail_by_suffix = None;
+        let events = log2.lock().unwrap().clone();
+        if let Some(msg) = check_durable_after_reopen(prog, &fs, &events) {
+            log2.lock().unwrap().push(Event {
+                thread: 96,
+                op: TOp::Flush,
+                invoke: u64::MAX - 5,
+                ret: u64::MAX - 4,
+                res: Res::Err(msg),
+            });
+        }
+    }
     if prog.recover_at_removals {
         let snaps = std::mem::take(&mut fs.state().removal_snaps);
         let events = log2.lock().unwrap().clone();
@@ -374,6 +395,58 @@ fn prog_body(prog: &Prog, log: &Arc<Mutex<Vec<Event>>>, stale: &Arc<AtomicU64>) 
             });
         }
     }
+}
+
+/// After a run with an injected fault: the fault is gone, the database is reopened. For every key
+/// the value found must come from a write (acknowledged or failed — a failed write may or may not
+/// have taken effect) that no *acknowledged* write to the same key definitely followed; "absent"
+/// without a delete is only possible if no write to the key was acknowledged.
+fn check_durable_after_reopen(prog: &Prog, fs: &VerifFs, events: &[Event]) -> Option<String> {
+    let db = match DB::open(db_options(fs, &prog.cfg)) {
+        Ok(db) => db,
+        Err(e) => return Some(format!("C08 after the fault: the database cannot be reopened once the fault is gone: {}", e)),
+    };
+    let effect = |e: &Event, k: u8| -> Option<Option<Vec<u8>>> {
+        match &e.op {
+            TOp::Put(kk, v, s) if *kk == k => Some(Some(val(*v, *s))),
+            TOp::Del(kk) if *kk == k => Some(None),
+            TOp::Batch(items) => items.iter().rev().find(|(kk, _)| *kk == k).map(|(_, v)| v.map(|v| val(v, 8))),
+            _ => None,
+        }
+    };
+    let mut bad = None;
+    for k in 0..prog.keys.len() as u8 {
+        let got = match db_get(&db, &prog.keys[k as usize], None) {
+            Ok(v) => v,
+            Err(e) => {
+                bad = Some(format!("C08 after the fault: get {} fails after a clean reopen: {}", esc(&prog.keys[k as usize]), e));
+                break;
+            }
+        };
+        let writes: Vec<(&Event, Option<Vec<u8>>)> = events.iter().filter(|e| e.thread < 90).filter_map(|e| effect(e, k).map(|v| (e, v))).collect();
+        let acked: Vec<&Event> = writes.iter().filter(|(e, _)| matches!(e.res, Res::Ok)).map(|(e, _)| *e).collect();
+        let mut allowed: Vec<Option<Vec<u8>>> = vec![];
+        if acked.is_empty() {
+            allowed.push(None);
+        }
+        for (w, v) in writes.iter() {
+            if !acked.iter().any(|a| a.invoke > w.ret) {
+                allowed.push(v.clone());
+            }
+        }
+        if !allowed.contains(&got) {
+            let sh = |v: &Option<Vec<u8>>| v.as_ref().map(|v| show_val(v)).unwrap_or_else(|| "NotFound".into());
+            bad = Some(format!(
+                "C08 after the fault: after a clean reopen {} = {} but the acknowledged writes allow only {}",
+                esc(&prog.keys[k as usize]),
+                sh(&got),
+                allowed.iter().map(sh).collect::<Vec<_>>().join(" / ")
+            ));
+            break;
+        }
+    }
+    drop(db);
+    bad
 }
 
 /// For every removal: recover from the image right after it; the contents must be the model of
@@ -533,6 +606,42 @@ pub fn linearizable(events: &[Event], keys: &[Vec<u8>]) -> bool {
     rec(events, keys, &mut done, &M::new(), events.len())
 }
 
+/// The same with failed calls: a failed read constrains nothing, a failed write may or may not
+/// have taken effect (once, somewhere inside its interval); calls that returned Ok are judged as
+/// usual — in particular a write that returned Ok must be visible to every later successful read.
+pub fn linearizable_with_failures(events: &[Event], keys: &[Vec<u8>]) -> bool {
+    fn rec(events: &[Event], keys: &[Vec<u8>], done: &mut Vec<bool>, m: &M, left: usize) -> bool {
+        if left == 0 {
+            return true;
+        }
+        let min_ret = events.iter().enumerate().filter(|(i, _)| !done[*i]).map(|(_, e)| e.ret).min().unwrap();
+        for i in 0..events.len() {
+            if done[i] || events[i].invoke > min_ret {
+                continue;
+            }
+            let failed = matches!(events[i].res, Res::Err(_));
+            let mut m2 = m.clone();
+            let r = model_result(&mut m2, &events[i], keys);
+            if failed || r == events[i].res {
+                done[i] = true;
+                if rec(events, keys, done, &m2, left - 1) {
+                    done[i] = false;
+                    return true;
+                }
+                // a failed write that did not take effect
+                if failed && m2 != *m && rec(events, keys, done, m, left - 1) {
+                    done[i] = false;
+                    return true;
+                }
+                done[i] = false;
+            }
+        }
+        false
+    }
+    let mut done = vec![false; events.len()];
+    rec(events, keys, &mut done, &M::new(), events.len())
+}
+
 fn show_res(r: &Res) -> String {
     match r {
         Res::Ok => "ok".into(),
@@ -582,6 +691,8 @@ pub fn judge(prog: &Prog, out: &Outcome, events: &[Event], stale_uses: u64, atom
         if let Res::Err(m) = &e.res {
             let clause = if m.starts_with("C11 directory after quiescence") {
                 "C11.dead_file_kept"
+            } else if m.starts_with("C08 after the fault") {
+                "C08.concurrent_acknowledged_write_lost"
             } else if m.starts_with("C11 needed file removed") {
                 "C11.needed_file_removed"
             } else if m.starts_with("C02 crash under concurrency") {
@@ -600,6 +711,18 @@ pub fn judge(prog: &Prog, out: &Outcome, events: &[Event], stale_uses: u64, atom
         }
     }
     if prog.fault.is_some() {
+        if prog.judge_under_fault {
+            let real: Vec<Event> = events.iter().filter(|e| e.thread < 90).cloned().collect();
+            if !linearizable_with_failures(&real, &prog.keys) {
+                return Some((
+                    "C08.concurrent_not_explainable".into(),
+                    format!(
+                        "with failed calls optional (a failed write may or may not have taken effect) no order explains the successful results — a write that returned Ok is not visible to a later successful read, or a read returned something never written: {}",
+                        history_str(events, &prog.keys).join(" | ")
+                    ),
+                ));
+            }
+        }
         return None;
     }
     if stale_uses > 0 {
